@@ -332,6 +332,13 @@ class Lattice(keras.layers.Layer):
     self.clip_inputs = clip_inputs
     self.interpolation = interpolation
 
+    # The initializer indexes per-dimension lists by the jointly unimodal
+    # dimensions, so they must be verified first.
+    lattice_lib.verify_hyperparameters(
+        lattice_sizes=self.lattice_sizes,
+        monotonicities=self.monotonicities,
+        joint_unimodalities=self.joint_unimodalities)
+
     self.kernel_initializer = create_kernel_initializer(
         kernel_initializer, self.lattice_sizes, self.monotonicities,
         self.output_min, self.output_max, self.unimodalities,
